@@ -5,6 +5,7 @@ import PgModel.EvoPerm
 import PgModel.EvoNum
 import PgModel.EvoProp
 import PgModel.EvoSched
+import PgModel.EvoNest
 open Pg Pg.C14
 
 def qOfJ : J → Option Q
@@ -236,11 +237,51 @@ def renumber (n0 : Nat) (out : Pop) : List J :=
 
 def bad (msg : String) : J := .obj [("bad_request", .str msg)]
 
+def stageOfJ (g : GSpec) (fuel : Nat) : J → Option NStage
+  | .arr [.str "flat", e] => do pure (.flat (← exprOfJ g fuel e))
+  | .arr [.str "chunk", .int k] => some (.chunk k.toNat)
+  | .arr [.str "forEach", e] => do pure (.forEach (← exprOfJ g fuel e))
+  | .arr [.str "forEachWrap"] => some .forEachWrap
+  | .arr [.str "flatten", m] => do pure (.flatten (← optNat m))
+  | _ => none
+
+def indToJ (g : GSpec) (x : Ind) (id : J) : J :=
+  .obj ([("id", id)] ++ dnaToJ x.dna ++
+        [("fit", match x.fit with | some f => .int f | none => .null),
+         ("valid", .bool (valid g x.dna)), ("aligned", .bool (aligned x.dna))])
+
+/-- nested output: items consume the identity labels in order. -/
+partial def nestsToJ (g : GSpec) : List Nest → List J → (List J × List J)
+  | [], ids => ([], ids)
+  | .item x :: t, ids =>
+    let (rest, ids') := nestsToJ g t (ids.drop 1)
+    (indToJ g x (ids.headD .null) :: rest, ids')
+  | .list ys :: t, ids =>
+    let (inner, ids1) := nestsToJ g ys ids
+    let (rest, ids2) := nestsToJ g t ids1
+    (J.obj [("list", .arr inner)] :: rest, ids2)
+
+def handleNested (j : J) (g : GSpec) (fuel : Nat) (pop : Pop) (oracle : List Ev) : J :=
+  let step := (j.getNat? "step").getD 0
+  match (j.getArr? "stages").bind (fun ss => ss.mapM (fun sj => (resolveJ step sj).bind (stageOfJ g fuel))) with
+  | none => bad "stages"
+  | some stages =>
+    match evalStages stages (ofPop pop) { oracle := oracle, nextUid := pop.length } with
+    | .error err => .obj [("err", .str (errName err))]
+    | .ok (out, st) =>
+      let ids := renumber pop.length (itemsAll out)
+      .obj [("ok", .arr (nestsToJ g out ids).1), ("left", .int st.oracle.length)]
+
 def handle (j : J) : J :=
   match (j.get? "spec").bind specOfJ with
   | none => bad "spec"
   | some g =>
     let fuel := depth g + 2
+    if (j.get? "stages").isSome then
+      match (j.getArr? "pop").bind (popOfJ g 0), (j.getArr? "oracle").bind (·.mapM (evOfJ g)) with
+      | some pop, some oracle => handleNested j g fuel pop oracle
+      | _, _ => bad "pop/oracle"
+    else
     match (j.getArr? "pop").bind (popOfJ g 0), (j.getArr? "oracle").bind (·.mapM (evOfJ g)),
           ((j.get? "expr").bind (resolveJ ((j.getNat? "step").getD 0))).bind (exprOfJ g fuel) with
     | some pop, some oracle, some e =>
